@@ -277,14 +277,31 @@ func c05r5(r *R) {
 	o.Check(n >= 1, "no header insertions found in newWriterAndRequest")
 	ch := c.Method("pkg/http2", "serverConn", "canonicalHeader")
 	r.need(ch != nil, "canonicalHeader not found")
-	o2 := r.Ob("C05.R5", "canonicalHeader-uses-CanonicalHeaderKey").At(ch.Pos())
-	ok := false
+	o2 := r.Ob("C05.R5", "canonicalHeader-returns-canonical-on-every-path").At(ch.Pos())
+	nret := 0
 	eachInstr(ch, func(i ssa.Instruction) {
-		if isCall(i, "net/http.CanonicalHeaderKey") {
-			ok = true
+		switch x := i.(type) {
+		case *ssa.Return:
+			nret++
+			e := c.Expr(x.Results[0])
+			okr := e == "net/http.CanonicalHeaderKey(p1)" || e == "http2.commonCanonHeader[p1]#0" || e == "p0.canonHeader[p1]#0"
+			o2.AtI(i).Check(okr, "canonicalHeader returns %s on some path: a header name that is not canonical (for example the lower-case wire name) would be stored under a key that Header.Set/Del never address, so a client's fingerprint header survives", e)
+		case *ssa.MapUpdate:
+			if strings.HasSuffix(c.Expr(x.Map), ".canonHeader") {
+				o2.AtI(i).Check(c.Expr(x.Key) == "p1" && c.Expr(x.Value) == "net/http.CanonicalHeaderKey(p1)", "canonHeader cache is filled with %s -> %s", c.Expr(x.Key), c.Expr(x.Value))
+			}
 		}
 	})
-	o2.Check(ok, "canonicalHeader no longer derives keys with http.CanonicalHeaderKey")
+	o2.Check(nret >= 1, "canonicalHeader has no return")
+	// the shared table maps lower-case names to their canonical form
+	bm := c.Func("pkg/http2", "buildCommonHeaderMaps")
+	if o2.Check(bm != nil, "buildCommonHeaderMaps not found") {
+		eachInstr(bm, func(i ssa.Instruction) {
+			if mu, ok := i.(*ssa.MapUpdate); ok && c.Expr(mu.Map) == "http2.commonCanonHeader" {
+				o2.AtI(i).Check(strings.HasPrefix(c.Expr(mu.Value), "net/http.CanonicalHeaderKey("), "commonCanonHeader values are %s", c.Expr(mu.Value))
+			}
+		})
+	}
 	r.assume("S4: http.Header.Set/Del canonicalise the key; Set replaces all values")
 	r.assume("S3: httputil.ReverseProxy with Rewrite clones the inbound header, strips hop-by-hop and Forwarded/X-Forwarded-*, then calls Rewrite")
 }
